@@ -118,10 +118,13 @@ def extract(units, extra=(), allow_errors=False):
 
 def _prune_cache(keep):
     try:
+        now = time.time()
         ds = [os.path.join(CACHE, x) for x in os.listdir(CACHE)]
-        ds = [x for x in ds if os.path.isdir(x) and x != keep]
+        ds = [x for x in ds if os.path.isdir(x) and x != keep and len(os.path.basename(x)) == 24]
+        # never remove a directory another process may be using: only those untouched for an hour, oldest first
+        ds = [x for x in ds if now - os.path.getmtime(x) > 3600]
         ds.sort(key=os.path.getmtime)
-        for x in ds[:-3]:
+        for x in ds[:-2]:
             subprocess.run(['rm', '-rf', x])
     except OSError:
         pass
@@ -222,7 +225,7 @@ class Result:
             for b in self.broken:
                 print('ANALYSIS-BROKEN property=%s: %s' % (self.prop, b))
             code = 2
-        rdir = os.path.join(VERIF, 'replays')
+        rdir = os.path.join(VERIF, 'replays') if REPO == '/repo' else os.path.join(CACHE, 'replays-scratch')
         os.makedirs(rdir, exist_ok=True)
         for i, v in enumerate(out_viol):
             path = os.path.join(rdir, '%s-%d.json' % (self.prop, i + 1))
@@ -253,8 +256,9 @@ class Result:
             'level': self.level, 'coverage': cov, 'assumptions': self.assumptions,
             'wall_s': round(wall, 2), 'violations': len(out_viol),
         }
-        os.makedirs(os.path.join(VERIF, 'evidence'), exist_ok=True)
-        with open(os.path.join(VERIF, 'evidence', self.prop + '.json'), 'w') as fh:
+        evdir = os.path.join(VERIF, 'evidence') if REPO == '/repo' else os.path.join(CACHE, 'evidence-scratch')   # runs against a scratch tree never touch the committed evidence
+        os.makedirs(evdir, exist_ok=True)
+        with open(os.path.join(evdir, self.prop + '.json'), 'w') as fh:
             json.dump(ev, fh, indent=1, default=str)
         print('%s %s: obligations=%d discharged=%d violations=%d known=%d broken=%d wall=%.1fs' % (
             self.prop, self.tier, self.obligations, self.discharged, len(out_viol), len(known_hits), len(self.broken), wall))
